@@ -72,6 +72,7 @@ Judge ==
        /\ J("C07", "Deterministic", Deterministic(r))
        /\ J("C08", "BidAdmission", BidAdmission(r))
        /\ J("C08", "UpdateGuard", UpdateGuard(r))
+       /\ J("C08", "AttributeRecordsFollowTransactions", AttributeRecordsFollowTransactions(r))
        /\ J("C16", "EventsMatchDiff", EventsMatchDiff(r))
        \* conformance: the recorded step is the step the specification's action produces (drift is not an alarm)
        /\ "CONF" \in Which =>
